@@ -664,13 +664,12 @@ def axis_only_solver(b):
     `run` only builds the time axis (nothing changes in /repo). Returns (solver, patched?)."""
     from gearpy.solver import Solver
     s = Solver(b.pt)
-    ok = True
-    for name in ('_compute_powertrain_variables', '_time_integration', '_compute_powertrain_inertia'):
-        if hasattr(s, name):
-            setattr(s, name, lambda *a, **k: None)
-        else:
-            ok = False
-    return s, ok
+    names = ('_compute_powertrain_variables', '_time_integration', '_compute_powertrain_inertia')
+    if not all(hasattr(s, name) for name in names):
+        return s, False       # internals renamed: patch nothing, the sweep runs the full physics
+    for name in names:
+        setattr(s, name, lambda *a, **k: None)
+    return s, True
 
 
 def tiny_chain():
